@@ -10,8 +10,8 @@ demo = sorted(f for f in os.listdir(src) if f.endswith(".rs"))[0]
 for f in ("patch.diff", demo, "NOTES.md"):
     if os.path.exists(os.path.join(src, f)):
         shutil.copy(os.path.join(src, f), os.path.join(dst, f))
-confirm = open("/tmp/seedlogs/%s.confirm" % pid).read()
-tr = open("/tmp/seedlogs/%s.try" % pid).read()
+confirm = open("/tmp/seedlogs/%s.confirm" % pid, errors="replace").read()
+tr = open("/tmp/seedlogs/%s.try" % pid, errors="replace").read()
 caught = {}
 for m in re.finditer(r"^\s+(C\d\d):\s+(.*)$", tr, re.M):
     txt = m.group(2).strip()
